@@ -1,0 +1,191 @@
+//go:build verif
+
+// Contracts for package calculator/parsers (comment-only; read by /verif's VC generator).
+package parsers
+
+//@ func NewExpressionToken
+//@   ensures[C02] fresh(result) && result.typ == typ && result.line == line && result.column == column
+//@   ensures[C02] value != nil ==> result.value == value
+//@   ensures[C02] value == nil ==> result.value != nil && fresh(result.value) && vinv(result.value) && result.value.typ == variants.Null
+//@   assigns nothing
+//@   nopanic
+//@ func (c *ExpressionToken) Type
+//@   requires c != nil
+//@   ensures result == c.typ
+//@   assigns nothing
+//@   nopanic
+//@ func (c *ExpressionToken) Value
+//@   requires c != nil
+//@   ensures result == c.value
+//@   assigns nothing
+//@   nopanic
+//@ func (c *ExpressionToken) Line
+//@   requires c != nil
+//@   ensures result == c.line
+//@   assigns nothing
+//@   nopanic
+//@ func (c *ExpressionToken) Column
+//@   requires c != nil
+//@   ensures result == c.column
+//@   assigns nothing
+//@   nopanic
+//
+// a classified token: a valid variant value; variables (and calls) carry their name as a string
+//@ pred tokOK(t *ExpressionToken) = t != nil && t.value != nil && vinv(t.value) &&
+//@     (t.typ == Variable ==> t.value.typ == variants.String) && t.typ != Function && t.typ != Unary
+//@ pred parserInv(c *ExpressionParser) = c != nil && 0 <= c.currentTokenIndex && c.currentTokenIndex <= len(c.initialTokens) &&
+//@     (forall i int :: 0 <= i && i < len(c.initialTokens) ==> tokOK(c.initialTokens[i])) &&
+//@     (arr(c.resultTokens) != arr(c.initialTokens) || arr(c.resultTokens) == 0)
+//
+// the token list is not touched by the syntax analysis
+//@ pred sameTokens(c *ExpressionParser) = c.initialTokens == old(c.initialTokens) &&
+//@     (forall i int :: 0 <= i && i < len(c.initialTokens) ==> c.initialTokens[i] == old(c.initialTokens[i])) &&
+//@     (arr(c.resultTokens) == old(arr(c.resultTokens)) || fresh(c.resultTokens)) &&
+//@     (arr(c.variableNames) == old(arr(c.variableNames)) || fresh(c.variableNames))
+//
+//@ func (c *ExpressionParser) hasMoreTokens
+//@   requires c != nil
+//@   ensures result == (c.currentTokenIndex < len(c.initialTokens))
+//@   assigns nothing
+//@   nopanic
+//@ func (c *ExpressionParser) checkForMoreTokens
+//@   requires c != nil
+//@   ensures[C02] (result == nil) == (c.currentTokenIndex < len(c.initialTokens))
+//@   ensures[C02] errHasCode(result)
+//@   assigns nothing
+//@   nopanic
+//@ func (c *ExpressionParser) getCurrentToken
+//@   requires c != nil && 0 <= c.currentTokenIndex
+//@   ensures result == (c.currentTokenIndex < len(c.initialTokens) ? c.initialTokens[c.currentTokenIndex] : nil)
+//@   assigns nothing
+//@   nopanic
+//@ func (c *ExpressionParser) getNextToken
+//@   requires c != nil && 0 <= c.currentTokenIndex && c.currentTokenIndex <= len(c.initialTokens)
+//@   ensures result == (c.currentTokenIndex + 1 < len(c.initialTokens) ? c.initialTokens[c.currentTokenIndex + 1] : nil)
+//@   assigns nothing
+//@   nopanic
+//@ func (c *ExpressionParser) moveToNextToken
+//@   requires c != nil && c.currentTokenIndex <= len(c.initialTokens)
+//@   ensures c.currentTokenIndex == old(c.currentTokenIndex) + 1
+//@   assigns c.currentTokenIndex
+//@   nopanic
+//@ func (c *ExpressionParser) addTokenToResult
+//@   requires c != nil
+//@   ensures len(c.resultTokens) == old(len(c.resultTokens)) + 1 && fresh(c.resultTokens[len(c.resultTokens) - 1]) &&
+//@       c.resultTokens[len(c.resultTokens) - 1].typ == typ
+//@   ensures arr(c.resultTokens) == old(arr(c.resultTokens)) || fresh(c.resultTokens)
+//@   assigns c.resultTokens, c.resultTokens[*]
+//@   nopanic
+//
+// "a stray word in place of IS/NOT" is not accepted: every listed type must match, in order
+//@ func (c *ExpressionParser) matchTokensWithTypes
+//@   requires parserInv(c) && len(types) >= 1
+//@   ensures[C02] result == (forall i int :: 0 <= i && i < len(types) ==>
+//@       old(c.currentTokenIndex) + i < len(c.initialTokens) && c.initialTokens[old(c.currentTokenIndex) + i].typ == types[i])
+//@   ensures[C02] c.currentTokenIndex == old(c.currentTokenIndex) + (result ? len(types) : 0)
+//@   assigns c.currentTokenIndex
+//@   nopanic
+//@   loop 0
+//@     invariant -1 <= rangeindex && rangeindex < len(types) && c.currentTokenIndex == old(c.currentTokenIndex)
+//@     invariant rangeindex >= 0 ==> matches
+//@     invariant forall i int :: 0 <= i && i <= rangeindex ==>
+//@         c.currentTokenIndex + i < len(c.initialTokens) && c.initialTokens[c.currentTokenIndex + i].typ == types[i]
+//@     decreases len(types) - rangeindex
+
+// ---- syntax analysis (C02, C03): every level either fails with an error that carries a code or consumes at least
+// one token; it never panics, never touches the token list, and terminates (measure: tokens left, then level)
+//@ pred errHasCode(e error) = e != nil ==> typeof(e) == typeid("*errors.ApplicationError") && e.(*errors.ApplicationError) != nil && e.(*errors.ApplicationError).Code != ""
+
+//@ func (c *ExpressionParser) performSyntaxAnalysis
+//@   requires parserInv(c)
+//@   ensures[C02,C03] parserInv(c) && sameTokens(c) && errHasCode(result)
+//@   ensures[C02] c.currentTokenIndex >= old(c.currentTokenIndex)
+//@   ensures[C02] result == nil ==> c.currentTokenIndex > old(c.currentTokenIndex)
+//@   assigns c.currentTokenIndex, c.resultTokens, c.resultTokens[*], c.variableNames, c.variableNames[*]
+//@   nopanic
+//@   recgroup parser
+//@   decreases len(c.initialTokens) - c.currentTokenIndex, 7
+//@   loop 0
+//@     invariant parserInv(c) && sameTokens(c) && c.currentTokenIndex > old(c.currentTokenIndex)
+//@     decreases len(c.initialTokens) - c.currentTokenIndex
+//
+//@ func (c *ExpressionParser) performSyntaxAnalysisAtLevel1
+//@   requires parserInv(c)
+//@   ensures[C02,C03] parserInv(c) && sameTokens(c) && errHasCode(result)
+//@   ensures[C02] c.currentTokenIndex >= old(c.currentTokenIndex)
+//@   ensures[C02] result == nil ==> c.currentTokenIndex > old(c.currentTokenIndex)
+//@   assigns c.currentTokenIndex, c.resultTokens, c.resultTokens[*], c.variableNames, c.variableNames[*]
+//@   nopanic
+//@   recgroup parser
+//@   decreases len(c.initialTokens) - c.currentTokenIndex, 6
+//
+//@ func (c *ExpressionParser) performSyntaxAnalysisAtLevel2
+//@   requires parserInv(c)
+//@   ensures[C02,C03] parserInv(c) && sameTokens(c) && errHasCode(result)
+//@   ensures[C02] c.currentTokenIndex >= old(c.currentTokenIndex)
+//@   ensures[C02] result == nil ==> c.currentTokenIndex > old(c.currentTokenIndex)
+//@   assigns c.currentTokenIndex, c.resultTokens, c.resultTokens[*], c.variableNames, c.variableNames[*]
+//@   nopanic
+//@   recgroup parser
+//@   decreases len(c.initialTokens) - c.currentTokenIndex, 5
+//@   loop 0
+//@     invariant parserInv(c) && sameTokens(c) && c.currentTokenIndex > old(c.currentTokenIndex)
+//@     decreases len(c.initialTokens) - c.currentTokenIndex
+//
+//@ func (c *ExpressionParser) performSyntaxAnalysisAtLevel3
+//@   requires parserInv(c)
+//@   ensures[C02,C03] parserInv(c) && sameTokens(c) && errHasCode(result)
+//@   ensures[C02] c.currentTokenIndex >= old(c.currentTokenIndex)
+//@   ensures[C02] result == nil ==> c.currentTokenIndex > old(c.currentTokenIndex)
+//@   assigns c.currentTokenIndex, c.resultTokens, c.resultTokens[*], c.variableNames, c.variableNames[*]
+//@   nopanic
+//@   recgroup parser
+//@   decreases len(c.initialTokens) - c.currentTokenIndex, 4
+//@   loop 0
+//@     invariant parserInv(c) && sameTokens(c) && c.currentTokenIndex > old(c.currentTokenIndex)
+//@     decreases len(c.initialTokens) - c.currentTokenIndex
+//
+//@ func (c *ExpressionParser) performSyntaxAnalysisAtLevel4
+//@   requires parserInv(c)
+//@   ensures[C02,C03] parserInv(c) && sameTokens(c) && errHasCode(result)
+//@   ensures[C02] c.currentTokenIndex >= old(c.currentTokenIndex)
+//@   ensures[C02] result == nil ==> c.currentTokenIndex > old(c.currentTokenIndex)
+//@   assigns c.currentTokenIndex, c.resultTokens, c.resultTokens[*], c.variableNames, c.variableNames[*]
+//@   nopanic
+//@   recgroup parser
+//@   decreases len(c.initialTokens) - c.currentTokenIndex, 3
+//@   loop 0
+//@     invariant parserInv(c) && sameTokens(c) && c.currentTokenIndex > old(c.currentTokenIndex)
+//@     decreases len(c.initialTokens) - c.currentTokenIndex
+//
+//@ func (c *ExpressionParser) performSyntaxAnalysisAtLevel5
+//@   requires parserInv(c)
+//@   ensures[C02,C03] parserInv(c) && sameTokens(c) && errHasCode(result)
+//@   ensures[C02] c.currentTokenIndex >= old(c.currentTokenIndex)
+//@   ensures[C02] result == nil ==> c.currentTokenIndex > old(c.currentTokenIndex)
+//@   assigns c.currentTokenIndex, c.resultTokens, c.resultTokens[*], c.variableNames, c.variableNames[*]
+//@   nopanic
+//@   recgroup parser
+//@   decreases len(c.initialTokens) - c.currentTokenIndex, 2
+//@   loop 0
+//@     invariant parserInv(c) && sameTokens(c) && c.currentTokenIndex > old(c.currentTokenIndex)
+//@     decreases len(c.initialTokens) - c.currentTokenIndex
+//
+//@ func (c *ExpressionParser) performSyntaxAnalysisAtLevel6
+//@   requires parserInv(c)
+//@   ensures[C02,C03] parserInv(c) && sameTokens(c) && errHasCode(result)
+//@   ensures[C02] c.currentTokenIndex >= old(c.currentTokenIndex)
+//@   ensures[C02] result == nil ==> c.currentTokenIndex > old(c.currentTokenIndex)
+//@   assigns c.currentTokenIndex, c.resultTokens, c.resultTokens[*], c.variableNames, c.variableNames[*]
+//@   nopanic
+//@   recgroup parser
+//@   decreases len(c.initialTokens) - c.currentTokenIndex, 1
+//@   callsite[C02] addTokenToResult requires typ != Element || (c.currentTokenIndex >= 1 && c.initialTokens[c.currentTokenIndex - 1].typ == RightSquareBrace)
+//@   loop 0
+//@     invariant -1 <= rangeindex && rangeindex < len(c.variableNames) && parserInv(c) && sameTokens(c) && c.currentTokenIndex > old(c.currentTokenIndex)
+//@     decreases len(c.variableNames) - rangeindex
+//@   loop 1
+//@     invariant parserInv(c) && sameTokens(c) && c.currentTokenIndex > old(c.currentTokenIndex) && paramCount >= 0 && paramCount <= c.currentTokenIndex
+//@     invariant c.currentTokenIndex < len(c.initialTokens)
+//@     decreases len(c.initialTokens) - c.currentTokenIndex
+//
